@@ -31,11 +31,37 @@ def _pivot_side(v):
 
 GEN_PIVOT = [('v0!=v1', lambda f: ne(f, 'v0', 'v1')), ('etype(v0,v1)=H', lambda f: etype(f, 'v0', 'v1', H))] + _pivot_side('v0') + _pivot_side('v1')
 
+def _pi_copy_leg(fs):
+    """one surviving disjunct of the per-neighbour condition of pi-copy:
+    (leg is not a plain edge, or the neighbour has the opposite colour) and (leg is not a Hadamard edge, or the neighbour has the same colour)"""
+    from qxlib.rmatch import W
+    a = b = False
+    for (pol, atom) in fs:
+        if atom[0] != 'cmp' or atom[1] != 'Eq':
+            continue
+        x, y = atom[2], atom[3]
+        for l, r in ((x, y), (y, x)):
+            if l[0] == 'etype' and W in l[1:3] and V('v') in l[1:3]:
+                if not pol and r == N:
+                    a = True
+                if not pol and r == H:
+                    b = True
+            if l == ('ty', W):
+                if pol and r[0] == 'derived':
+                    a = True          # neighbour colour equals the derived opposite colour
+                if pol and r == ('ty', V('v')):
+                    b = True          # neighbour colour equals the spider's own colour
+    return a and b
+
+
 CONTRACTS = {
     'basic_rules::check_spider_fusion': [
         ('v0!=v1', lambda f: ne(f, 'v0', 'v1')),
         ('etype(v0,v1)=N', lambda f: etype(f, 'v0', 'v1', N)),
         ('same colour in {Z,X}', lambda f: (ty_in(f, 'v0', [Z]) and ty_in(f, 'v1', [Z])) or (ty_in(f, 'v0', [X]) and ty_in(f, 'v1', [X])))],
+    'basic_rules::check_pi_copy': [
+        ('ty in {Z,X}', lambda f: any(a[0] == 'cmp' and a[1] == 'Eq' and ('ty', V('v')) in a[2:4] and (Z in a[2:4] or X in a[2:4]) for (pol, a) in f if pol)),
+        ('every leg: (plain and opposite colour) or (Hadamard and same colour)', lambda f: forall_inc(f, 'v', _pi_copy_leg))],
     'basic_rules::check_remove_id': [
         ('ty in {Z,X}', lambda f: ty_in(f, 'v', [Z, X])),
         ('phase zero', lambda f: ph(f, 'v', 'zero')),
